@@ -19,6 +19,7 @@ from harness.base import Results, corpus_lines
 from harness import c08_world as W
 
 FA = 7            # force_after used by the injected close() calls
+FA_LONG = 40      # a force_after beyond the default processing_timeout (30)
 REACT = 3         # a stubborn handler's reaction time
 TAIL = 200        # virtual seconds after the conversation
 LTS_EVENTS = {'Q', 'W', 'B', 'C', 'X', 'D', 'NQ', 'NW', 'BT', 'F', 'O', 'OB', 'ON', 'R', 'L', 'LE', 'AC', 'ACC',
@@ -31,17 +32,25 @@ RULE = ('case = (session kind RPCSession|MessageSession, transport RSTransport|U
         'exhaustive over all conversations up to the stated length from the stated alphabets x '
         'all faults x all injection points, + seeded random longer ones. non-trivial = at the '
         'moment connection_lost was delivered at least one outgoing request was pending or one '
-        'handler was inside its body; distinct = distinct (config, event list)')
+        'handler was inside its body; distinct = distinct (config, event list). mass_outgoing = 51..60 '
+        'simultaneous send_request callers (outgoing limit 50) x fault; microstep = fault after only n '
+        'loop iterations of an event (oracle only)')
 
 # ---------------------------------------------------------------------------- conversations
 RPC_STEPS_QUICK = ['W', 'B', 'K', 'O', 'OB', 'Q', 'PA', 'GB', 'A5']
-RPC_STEPS_FULL = ['Q', 'W', 'B', 'BL', 'C', 'X', 'K', 'D', 'NW', 'NQ', 'BT', 'PT', 'GB', 'O', 'OB', 'ON',
-                  'R', 'F', 'PA', 'RE', 'A1', 'A5', 'A25']
+RPC_STEPS_FULL = ['Q', 'W', 'B', 'BL', 'C', 'CL', 'WC', 'X', 'K', 'D', 'NW', 'NQ', 'BT', 'PT', 'GB', 'O', 'OB',
+                  'ON', 'OM', 'R', 'F', 'Z', 'PA', 'RE', 'A1', 'A5', 'A25']
 MSG_STEPS_QUICK = ['W', 'B', 'Q', 'ON', 'PA', 'GB', 'A5']
-MSG_STEPS_FULL = ['Q', 'W', 'B', 'BL', 'C', 'X', 'PT', 'GB', 'BC', 'ON', 'F', 'PA', 'RE', 'A1', 'A5', 'A25']
+MSG_STEPS_FULL = ['Q', 'W', 'B', 'BL', 'C', 'CL', 'WC', 'X', 'PT', 'GB', 'BC', 'ON', 'F', 'Z', 'PA', 'RE', 'A1',
+                  'A5', 'A25']
 FAULTS = ['drop', 'close', 'close2', 'closeclose', 'abort', 'close_stalled', 'close2_stalled',
           'handler_close', 'handler_close_stalled', 'abort_then_close', 'close_then_drop',
-          'drop_error', 'drop_then_close']
+          'drop_error', 'drop_then_close',
+          # a handler closing with a force_after beyond its own processing timeout; a handler that
+          # waits, then closes; close() whose caller is cancelled; a handler task that ends with a
+          # cancellation nobody in the session asked for (then a close())
+          'handler_close_long', 'handler_close_long_stalled', 'waiting_handler_close_stalled',
+          'close_cancelled', 'close_cancelled_stalled', 'crash', 'crash_then_close_stalled']
 REACT_LONG = 20   # a stubborn handler that outlasts force_after (and twice force_after)
 
 
@@ -73,6 +82,22 @@ def expand(steps, fault, at):
         if f == 'handler_close':
             st['h'] += 1
             return [('C', st['h'], FA)]
+        if f == 'handler_close_long':
+            st['h'] += 1
+            return [('C', st['h'], FA_LONG)]
+        if f == 'waiting_handler_close':
+            st['h'] += 1
+            return [('WC', st['h'], 30), ('A', 1), ('F', st['h'])]
+        if f == 'close_cancelled':
+            st['c'] += 1
+            return [('AC', st['c'], FA), ('A', 1), ('XC', st['c'])]
+        if f in ('crash', 'crash_then_close'):
+            st['h'] += 1
+            evs_ = [('W', st['h']), ('Z', st['h'])]
+            if f == 'crash_then_close':
+                st['c'] += 1
+                evs_.append(('AC', st['c'], FA))
+            return evs_
         if f == 'abort_then_close':
             st['c'] += 1
             return [('AB',), ('AC', st['c'], FA)]
@@ -91,9 +116,19 @@ def expand(steps, fault, at):
             st['h'] += 1
             st['waiting'].append(st['h'])
             return [('B', st['h'], REACT if name == 'B' else REACT_LONG)]
-        if name == 'C':
+        if name in ('C', 'CL'):
             st['h'] += 1
-            return [('C', st['h'], FA)]
+            return [('C', st['h'], FA if name == 'C' else FA_LONG)]
+        if name == 'WC':
+            st['h'] += 1
+            st['waiting'].append(st['h'])
+            return [('WC', st['h'], 30)]
+        if name == 'Z':
+            return [('Z', st['waiting'].pop(0))] if st['waiting'] else []
+        if name == 'OM':
+            st['k'] += 51
+            st['pending'].append(st['k'] - 50)
+            return [('OM', st['k'] - 50, 51)]
         if name == 'BT':
             st['h'] += 2
             st['waiting'].append(st['h'] - 1)
@@ -150,9 +185,9 @@ def random_crash_cases(r, n, maxlen=6):
 
 
 # ---------------------------------------------------------------------------- lifecycle (model) cases
-LTS_ALPHA = ['Q', 'W', 'B3', 'B20', 'C7', 'C2', 'F', 'O', 'R', 'L', 'AC7', 'AC2', 'ACC', 'AB', 'A1', 'A2',
-             'A5']
-LTS_ALPHA_QUICK = ['W', 'B3', 'B20', 'C7', 'O', 'R', 'L', 'AC7', 'AC2', 'AB', 'A2', 'A5']
+LTS_ALPHA = ['Q', 'W', 'B3', 'B20', 'B40', 'C7', 'C2', 'C40', 'D', 'F', 'Z', 'O', 'R', 'L', 'AC7', 'AC2', 'ACC',
+             'XC', 'AB', 'A1', 'A2', 'A5', 'A30']
+LTS_ALPHA_QUICK = ['W', 'B3', 'B20', 'C7', 'C40', 'Z', 'O', 'R', 'L', 'AC7', 'AC2', 'XC', 'AB', 'A5', 'A30']
 
 
 def expand_lts(letters, skind, tail=True):
@@ -168,8 +203,16 @@ def expand_lts(letters, skind, tail=True):
         elif x[0] == 'C':
             h += 1
             evs.append(('C', h, int(x[1:])))
+        elif x == 'D':
+            if skind == 'rpc':
+                h += 1
+                evs.append(('D', h))
         elif x == 'F':
             evs.append(('F', max(h, 1)))
+        elif x == 'Z':
+            evs.append(('Z', max(h, 1)))
+        elif x == 'XC':
+            evs.append(('XC', max(c, 1)))
         elif x == 'O':
             if skind == 'rpc':
                 k += 1
@@ -300,6 +343,11 @@ def oracle(cfg, evs, summ, ptimeout):
             # its own max_send_delay ran out at this very instant (C15: TaskTimeout + abort)
             if r['outcome'] == 'TaskTimeout' and r['done_at'] == summ['lost_at'] \
                     and r['done_at'] == r['start'] + summ['max_send_delay']:
+                continue
+            # likewise a caller that was still queued for a slot of the outgoing limiter when the
+            # hook ran, got the slot then and blocked sending (send buffer full at that moment)
+            if r['outcome'] == 'TaskTimeout' and summ['paused_at_hook'] and summ['hook_times'] \
+                    and r['done_at'] == summ['hook_times'][0] + summ['max_send_delay']:
                 continue
             bad.append(('c08:waiter-not-cancelled',
                         f'outgoing {r["kind"]} {k} was waiting when the connection was lost at '
@@ -522,12 +570,73 @@ def parse_case(line):
     return (cfg, W.parse_events(evs))
 
 
+def mass_cases(deep):
+    """more callers inside send_request than the outgoing limiter has slots (50) at the moment
+    the connection is lost / closed / aborted: those queued for a slot are waiting for a response
+    like the others"""
+    out = []
+    n = 0
+    sizes = (51, 53, 60) if deep else (51, 60)
+    for size in sizes:
+        for fault in ('drop', 'drop_error', 'close', 'close_stalled', 'abort', 'handler_close',
+                      'handler_close_stalled', 'close_cancelled_stalled', 'crash'):
+            for pre in ([], [('A', 3)], [('A', 3), ('R', 2)], [('W', 7)]):
+                stalled, fev = expand([], fault, 0)
+                evs = [('OM', 1, size)] + pre + [(e[0],) + tuple(x + 100 if e[0] in ('C', 'W', 'Z', 'WC') and i == 0 else x
+                                                                    for i, x in enumerate(e[1:])) for e in fev]
+                for skip in ((False, True) if deep else (False,)):
+                    ev2 = list(evs)
+                    if skip:
+                        ev2.insert(-1, ('O', 500))
+                    out.append(({'skind': 'rpc', 'transport': 'rs' if n % 2 == 0 else 'us',
+                                 'stalled': stalled}, ev2))
+                    n += 1
+    return out
+
+
+MICRO_STEPS_RPC = [('W', 1), ('B', 1, 3), ('C', 1, 7), ('K', 1), ('D', 1), ('X', 1), ('Q', 1), ('BT', 1, 2),
+                   ('GB',), ('O', 1), ('OB', 1), ('ON', 1), ('AC', 1, 7), ('AB',), ('F', 9), ('R', 9), ('Z', 9)]
+MICRO_STEPS_MSG = [('W', 1), ('B', 1, 3), ('C', 1, 7), ('X', 1), ('Q', 1), ('GB',), ('BC',), ('ON', 1),
+                   ('AC', 1, 7), ('F', 9), ('Z', 9)]
+
+
+def micro_cases(r, deep):
+    """faults injected at micro-steps: after only n iterations of the event loop following an
+    event (between data_received and the first handler step, between the registration of a
+    request future and the write, inside the teardown, ...) the link drops / breaks / abort() /
+    close() (also on a stalled transport) strikes.  Oracle only (the model is about quiescent
+    states)."""
+    out = []
+    n = 0
+    for skind, steps in (('rpc', MICRO_STEPS_RPC), ('msg', MICRO_STEPS_MSG)):
+        prefixes = [[], [('W', 9)], [('W', 9), ('O', 9)] if skind == 'rpc' else [('B', 9, 3)],
+                    [('PA',), ('W', 9)], [('AC', 9, 7)]]
+        for pre in prefixes:
+            for step in steps:
+                for k in range(0, 9):
+                    for f in range(5):
+                        out.append(({'skind': skind, 'transport': 'rs' if n % 2 == 0 else 'us',
+                                     'stalled': False},
+                                    list(pre) + [('M', k, f), step, ('A', TAIL)]))
+                        n += 1
+    if not deep:
+        r.shuffle(out)
+        out = out[:600]
+    return out
+
+
 def run(ctx):
     res = Results()
     corp = [parse_case(ln) for ln in corpus_lines(ctx.verif, 'C08')]
     if corp:
         evaluate(ctx, corp, res, 'corpus')
     res['scopes']['corpus'] = len(corp)
+
+    # callers beyond the outgoing limit
+    mass = mass_cases(ctx.deep)
+    if not res.failed:
+        evaluate(ctx, mass, res, 'mass_outgoing')
+    res['scopes']['mass_outgoing'] = len(mass)
 
     # lifecycle-model cases: exhaustive short + random
     lts = []
@@ -542,8 +651,10 @@ def run(ctx):
                 seen.add(letters)
                 for stalled in (False, True):
                     skind = 'rpc' if n % 3 else 'msg'
-                    lts.append(({'skind': skind, 'transport': 'rs' if n % 2 == 0 else 'us',
-                                 'stalled': stalled}, expand_lts(letters, skind)))
+                    cfg = {'skind': skind, 'transport': 'rs' if n % 2 == 0 else 'us', 'stalled': stalled}
+                    if n % 5 == 4:
+                        cfg['ptimeout'] = 5 if n % 2 else 12
+                    lts.append((cfg, expand_lts(letters, skind)))
                     n += 1
     lts += [random_lts_case(ctx.rng) for _ in range(30000 if ctx.deep else 3000)]
     if not res.failed:
@@ -551,21 +662,23 @@ def run(ctx):
     res['scopes']['lifecycle'] = {'scopes': [[a, m] for a, m in scopes], 'cases': len(lts)}
 
     # crash-point enumeration
-    main_faults = ['drop_error', 'close', 'close2_stalled', 'handler_close', 'abort', 'drop_then_close']
+    main_faults = ['drop_error', 'close', 'close2_stalled', 'handler_close', 'abort', 'drop_then_close',
+                   'handler_close_long_stalled', 'close_cancelled_stalled', 'crash_then_close_stalled']
     jobs = crash_cases('rpc', RPC_STEPS_QUICK, 2)
     jobs += crash_cases('msg', MSG_STEPS_QUICK, 2, start=1)
-    f3 = FAULTS if ctx.deep else main_faults
+    f3 = FAULTS if ctx.deep else main_faults[:6]
     jobs += crash_cases('rpc', RPC_STEPS_QUICK, 3, faults=f3, minlen=3)
     jobs += crash_cases('msg', MSG_STEPS_QUICK, 3, faults=f3, start=1, minlen=3)
     if ctx.deep and not res.failed:
-        jobs += crash_cases('rpc', RPC_STEPS_QUICK, 4, faults=main_faults, minlen=4)
-        jobs += crash_cases('msg', MSG_STEPS_QUICK, 4, faults=main_faults, start=1, minlen=4)
+        jobs += crash_cases('rpc', RPC_STEPS_QUICK, 4, faults=main_faults[:6], minlen=4)
+        jobs += crash_cases('msg', MSG_STEPS_QUICK, 4, faults=main_faults[:6], start=1, minlen=4)
         jobs += crash_cases('rpc', RPC_STEPS_FULL, 2)
         jobs += crash_cases('msg', MSG_STEPS_FULL, 2, start=1)
     else:
         jobs += crash_cases('rpc', RPC_STEPS_FULL, 1)
         jobs += crash_cases('msg', MSG_STEPS_FULL, 1, start=1)
-    evaluate(ctx, jobs, res, 'crashpoint_exhaustive')
+    if not res.failed:
+        evaluate(ctx, jobs, res, 'crashpoint_exhaustive')
     res['scopes']['crashpoint_exhaustive'] = {
         'rpc_alphabet': RPC_STEPS_QUICK, 'msg_alphabet': MSG_STEPS_QUICK,
         'max_len_all_faults': 3 if ctx.deep else 2, 'max_len_main_faults': 4 if ctx.deep else 3,
@@ -577,6 +690,12 @@ def run(ctx):
     if not res.failed:
         evaluate(ctx, rnd, res, 'crashpoint_random')
     res['scopes']['crashpoint_random'] = len(rnd)
+
+    # faults at micro-steps (oracle only)
+    mic = micro_cases(ctx.rng, ctx.deep)
+    if not res.failed:
+        evaluate(ctx, mic, res, 'microstep')
+    res['scopes']['microstep'] = len(mic)
     return res.finish(RULE, exhaustive=not res.failed)
 
 
